@@ -1134,6 +1134,40 @@ func r3emCallOperands(c *Ctx, roles *vmCompilerRoles, a *r3emAnchors) (okk, bad 
 		if res != "" {
 			return res
 		}
+		// the map is handed to a helper that fills it (`self.registerModule(…, initFns, …)`)
+		ast.Inspect(fn.fd.Body, func(m ast.Node) bool {
+			call, ok := m.(*ast.CallExpr)
+			if !ok || res != "" {
+				return true
+			}
+			callee := roles.byObj[CalleeOf(info, call)]
+			if callee == nil || callee == fn {
+				return true
+			}
+			for ai, a := range call.Args {
+				if vmObjOf(info, a) != mo {
+					continue
+				}
+				params := vmParamObjs(callee)
+				if ai < len(params) && params[ai] != nil {
+					po := params[ai]
+					ast.Inspect(callee.fd.Body, func(q ast.Node) bool {
+						if as2, ok := q.(*ast.AssignStmt); ok && len(as2.Lhs) == 1 && len(as2.Rhs) == 1 {
+							if ix, ok := ast.Unparen(as2.Lhs[0]).(*ast.IndexExpr); ok && vmObjOf(callee.info, ix.X) == po {
+								if r := origin(callee, as2.Rhs[0], depth+1); r != "" {
+									res = "element of `" + mo.Name() + "` (filled by " + callee.name + "), each " + r
+								}
+							}
+						}
+						return true
+					})
+				}
+			}
+			return true
+		})
+		if res != "" {
+			return res
+		}
 		// a parameter: what the callers pass
 		idx, pi := 0, -1
 		for _, fl := range fn.fd.Type.Params.List {
